@@ -29,6 +29,7 @@ def run(ctx):
     check_exhaustive(ctx, prog, f)
     check_parent(ctx, prog, f)
     check_entities(ctx, prog, f)
+    ctx.floor('C07.selfclose', check_selfclose(ctx, prog), 1)
     import nullret
     nullret.check(ctx, prog, 'C07', ('Xml.cpp',))
     import litread
@@ -40,6 +41,76 @@ def run(ctx):
     n = C08.check_fixed_buffers(ctx, prog, 'C07.outbuf', only_file='Xml.cpp', enc_prog=sprog)
     ctx.floor('C07.outbuf', n, 1)
     return __doc__.split('\n\n', 1)[1]
+
+
+def check_selfclose(ctx, prog):
+    """C07.selfclose: the encoder writes `<tag/>` only for an element without children - whatever is said about the first child,
+    an element that has children written in the self-closing form loses all of them (the decoder gets an empty element).  The
+    guards under which the literal "/>" is emitted are evaluated as a truth table over their atoms: whenever they hold, the
+    atom that says "no children" (numChildren() == 0 in any spelling) holds."""
+    import itertools
+    n = 0
+    for f in prog.functions:
+        if not f.get('body') or f.get('implicit') or not (f.get('pq') or '').startswith('asl::XmlCodec::') and not (f.get('pq') or '').startswith('asl::Xml::'):
+            continue
+        if not (f.get('file') or '').endswith('Xml.cpp'):
+            continue
+        sites = [e for e in fn_exprs(f) if e.get('k') == 'call' and any(w.get('k') == 'str' and bytes(w.get('b') or []) == b'/>' for a in (e.get('a') or []) for w in walk_expr(a))]
+        if not sites:
+            continue
+        g = q.Guarded(f)
+        for site in sites:
+            conds = [(q.expand(f, c, bools_only=True), pol) for c, pol, kind in g.of(site) if isinstance(c, dict) and kind in ('if', 'cond', 'and', 'or', 'after')]
+            atoms = {}
+
+            def childless(e):
+                """+1: atom true means no children; -1: atom true means has children; 0: another atom"""
+                e = strip(e)
+                cnt = lambda x: any(w.get('k') == 'call' and (w.get('pq') or '').split('::')[-1] in ('numChildren', 'length') for w in walk_expr(x))
+                if e.get('k') == 'bin' and e.get('op') in ('==', '!=', '>', '<', '<=', '>=') and cnt(e['x']) and const_val(e['y']) is not None:
+                    k_ = const_val(e['y'])
+                    t0 = {'==': 0 == k_, '!=': 0 != k_, '>': 0 > k_, '<': 0 < k_, '<=': 0 <= k_, '>=': 0 >= k_}[e['op']]
+                    t1 = {'==': 1 == k_, '!=': 1 != k_, '>': 1 > k_, '<': 1 < k_, '<=': 1 <= k_, '>=': 1 >= k_}[e['op']]
+                    return 1 if (t0 and not t1) else -1 if (t1 and not t0) else 0
+                if e.get('k') == 'call' and (e.get('pq') or '').split('::')[-1] in ('numChildren',):
+                    return -1
+                return 0
+
+            def ev(e, env):
+                e = strip(e)
+                while e.get('k') in ('paren', 'cast'):
+                    e = strip(e['e'])
+                if e.get('k') == 'bin' and e.get('op') in ('&&', '||'):
+                    x, y = ev(e['x'], env), ev(e['y'], env)
+                    return (x and y) if e['op'] == '&&' else (x or y)
+                if e.get('k') == 'un' and e.get('op') == '!':
+                    return not ev(e['e'], env)
+                t = pe(e)
+                atoms[t] = childless(e)
+                return env.get(t, False)
+            for c, pol in conds:
+                ev(c, {})
+            if not any(atoms.values()):
+                continue                     # the emission is not guarded by the child count here (a helper decides): not this rule's form
+            n += 1
+            ctx.analysed(f)
+            names = sorted(atoms)
+            bad = None
+            if len(names) <= 12:
+                for vals in itertools.product((False, True), repeat=len(names)):
+                    env = dict(zip(names, vals))
+                    # the count atoms are one fact: keep the rows in which they agree
+                    facts = set((env[t] if atoms[t] == 1 else not env[t]) for t in names if atoms[t])
+                    if len(facts) != 1:
+                        continue
+                    if all(bool(ev(c, env)) == bool(pol) for c, pol in conds) and not facts.pop():
+                        bad = env
+                        break
+            role = '%s:"/>" only for an element without children' % f['n']
+            ctx.check(bad is None, 'C07.selfclose', f['pq'], role, fwhere(f, site.get('l')), 'the guards of the emission imply that the element has no children (%d atoms)' % len(names),
+                      '%s writes the self-closing form for an element that has children (guards hold with %s): its children - elements and text - are not written at all, and decoding the output gives an empty element' % (
+                          f['pq'], ', '.join('`%s` %s' % (k_[:50], 'true' if v_ else 'false') for k_, v_ in sorted((bad or {}).items()))))
+    return n
 
 
 def fn1(prog, name, sig=None):
